@@ -98,7 +98,8 @@ Definition frontend_ok (be : bemap) (s : svc) (eps : list ep) (k : kind) (v : fv
   && (fv_aff v =? s_sticky s)
   && flag_ok (ext_local_required k s) (fv_flags v) FLG_EXT_LOCAL
   && flag_ok (int_local_required k s) (fv_flags v) FLG_INT_LOCAL
-  && (negb (has_flag (fv_flags v) FLG_MAGLEV) || s_maglev s).
+  && (negb (has_flag (fv_flags v) FLG_MAGLEV) || s_maglev s)
+  && Bool.eqb (has_flag (fv_flags v) FLG_EXCLUDE) (s_exclude s).
 
 Definition all_spec_frontends (npips : list N) (st : state) : list (fkey * (kind * (svc * list ep))) :=
   flat_map (fun se => map (fun kk => (fst kk, (snd kk, se))) (spec_frontends npips (fst se) (snd se))) st.
